@@ -239,16 +239,47 @@ def bookOne (e : Env) (t : Nat) (w : Walk) (a : BookAcc) (r : Nat) : BookAcc :=
 def bookAll (e : Env) (σ : St) (t : Nat) (w : Walk) (sel : List Nat) : BookAcc :=
   sel.foldl (bookOne e t w) { σ := σ, last := w.last }
 
-/-- team gate: with more than one selected resource all must be available (and within task limits) -/
+/-- `_countTeamMember(+1)`: count a booking of `r` by `t` in every limit a real booking increments -/
+def countMember (e : Env) (σ : St) (t : Nat) (i : Int) (r : Nat) : St :=
+  let σ2 := (resLimitIds e r).foldl (fun acc lid => limitInc e acc lid i none) σ
+  (taskLimitIds e t).foldl (fun acc lid => limitInc e acc lid i (some r)) σ2
+
+/-- the members of a team are checked one after the other, those already checked being counted
+    provisionally (the counts are taken back afterwards: the gate only answers yes or no) -/
+def teamGateOk (e : Env) (t : Nat) (i : Int) : St → List Nat → Bool
+  | _, [] => true
+  | σ, r :: rs =>
+    available e σ r i && taskLimitsOk e σ t i r && teamGateOk e t i (countMember e σ t i r) rs
+
+/-- an effort task with more than one selected resource -/
+def isTeam (e : Env) (t : Nat) (sel : List Nat) : Bool :=
+  decide ((e.taskD t).effort > 0) && decide (sel.length > 1)
+
+/-- team gate: with more than one selected resource all must be available (and within the limits,
+    counting the whole team) -/
 def teamGateFails (e : Env) (σ : St) (t : Nat) (w : Walk) (sel : List Nat) : Bool :=
-  decide ((e.taskD t).effort > 0) && decide (sel.length > 1) &&
-    !(sel.all (fun r => available e σ r w.cur && taskLimitsOk e σ t w.cur r))
+  isTeam e t sel && !teamGateOk e t w.cur σ sel
+
+/-- seconds used in slot `cur` by the busiest member -/
+def teamCommon (σ : St) (cur : Int) (sel : List Nat) : Rat :=
+  sel.foldl (fun m r => max m (σ.led.get r cur).used) 0
+
+def reserveAt (σ : St) (r : Nat) (i : Int) (off : Rat) : St :=
+  { σ with led := σ.led.set r i ((σ.led.get r i).reserve off) }
+
+/-- the team works the same instants: every member starts where the busiest one becomes free -/
+def levelTeam (σ : St) (cur : Int) (sel : List Nat) : St :=
+  sel.foldl (fun acc r => reserveAt acc r cur (teamCommon σ cur sel)) σ
 
 /-- on the first successful booking of a forward effort task: `start := t(cur) + offset` -/
 def markStart (e : Env) (σ : St) (t : Nat) (w : Walk) : St :=
   if decide ((e.taskD t).effort > 0) && w.done == 0 && (σ.tst t).forward then
     σ.setT t { σ.tst t with start := some (e.time w.cur + (if w.offset > 0 then w.offset.floor else 0)) }
   else σ
+
+/-- state in which the members are booked: levelled for a team, unchanged otherwise -/
+def leveled (e : Env) (σ : St) (t : Nat) (cur : Int) (sel : List Nat) : St :=
+  if isTeam e t sel then levelTeam σ cur sel else σ
 
 def selectedOf (e : Env) (σ : St) (t : Nat) (w : Walk) : List Nat :=
   match w.selected with
@@ -264,7 +295,7 @@ def bookResources (e : Env) (σ : St) (t : Nat) (w : Walk) : St × Walk :=
     if sel.isEmpty then (σ, w')
     else if teamGateFails e σ t w' sel then (σ, w')
     else
-      let acc := bookAll e σ t w' sel
+      let acc := bookAll e (leveled e σ t w'.cur sel) t w' sel
       if acc.any then (markStart e acc.σ t w', { w' with done := w'.done + acc.total, last := acc.last })
       else (acc.σ, { w' with last := acc.last })
 
